@@ -36,8 +36,9 @@ RENDER_EXCEPTIONS = {
 def r1_1(ctx):
     ctx.rule("R1.1", "budget threading: every console.render / console.render_lines call in a container's __rich_console__ receives either the container's own options unchanged or options.update(width=E) with E <= options.max_width in the abstract domain `<= W + c` (min/max/subtraction of non-negatives, Measurement.get(..., X).maximum <= X)")
     n = 0
+    from .common import splice_generator_helpers
     for spec in CONTAINERS:
-        f = ctx.repo.fn(spec)
+        f = splice_generator_helpers(ctx.repo.fn(spec))
         optp = f.params[2] if len(f.params) > 2 else "options"
         env = WidthEnv(f, optp)
         for c in walk_local(f.node):
@@ -128,7 +129,8 @@ def r1_2(ctx):
 def r1_3(ctx):
     ctx.rule("R1.3", "frame arithmetic: the common line width w of Padding and Panel (R8.3) is itself <= options.max_width in the `<= W + c` domain; Constrain hands down min(width, max_width); Tree subtracts its guide prefix")
     for spec in ("padding:Padding.__rich_console__", "panel:Panel.__rich_console__"):
-        f = ctx.repo.fn(spec)
+        from .common import splice_generator_helpers
+        f = splice_generator_helpers(ctx.repo.fn(spec))
         env = WidthEnv(f)
         em = Emit(env).run()
         if em.problems or not em.lines:
